@@ -21,6 +21,14 @@ def gen_cases(tier, seed):
                 yield {"prop": PROP, "id": "f%d" % n, "batch": "capture_forms", "gen": {"family": "captureforms", "spec": spec, "unordered": False},
                        "envs": modelcheck.gen_envs(rng, 2)}
                 n += 1
+    # late shadow: the four templates x sampled constants
+    for t in (1, 2, 3, 4):
+        for r in range(3):
+            rng = Rng(derive(seed, PROP, "lateshadow", t, r))
+            spec = {"t": t, "a": rng.range(1, 9), "b": rng.range(20, 60), "c": rng.range(100, 150)}
+            yield {"prop": PROP, "id": "s%d" % n, "batch": "late_shadow", "gen": {"family": "lateshadow", "spec": spec, "unordered": False},
+                   "envs": modelcheck.gen_envs(rng, 2)}
+            n += 1
     total = 4000 if tier == "quick" else 48000
     for i in range(total):
         rng = Rng(derive(seed, PROP, "hist", i))
